@@ -29,6 +29,13 @@ type C13Case struct {
 	// Early: indexes of Steps after which the forest is ALSO written (and that stream restored and
 	// compared): a long-lived object is flushed again and again, with any kind of call in between
 	Early []int `json:"early,omitempty"`
+	// HighProbe: instead of all the above, the deterministic huge-leaf-count probe (see preHighC13)
+	HighProbe *c13High `json:"highprobe,omitempty"`
+}
+
+type c13High struct {
+	High   uint64  `json:"high"`
+	Blocks []Block `json:"blocks"`
 }
 
 func genC13(t *rapid.T) C13Case {
@@ -247,6 +254,14 @@ func sameState(a, b *Inst, maxPos uint64, ever []Hash) error {
 
 func runC13(c C13Case) *Result {
 	res := &Result{}
+	if c.HighProbe != nil {
+		if err := highC13Unit(c.HighProbe.High, c.HighProbe.Blocks); err != nil {
+			return res.failf("serialization of a forest behind %d opaque leaves: %v", c.HighProbe.High, err)
+		}
+		res.NonTrivial = true
+		res.class("huge-leaf-count-probe")
+		return res
+	}
 	if c.Cfg.Kind != "pollard" && c.Cfg.Kind != "map" {
 		return res.failf("case error: kind %q cannot be serialized", c.Cfg.Kind)
 	}
@@ -508,5 +523,5 @@ func runC13(c C13Case) *Result {
 }
 
 func TestC13(t *testing.T) {
-	runSpec(t, Spec[C13Case]{ID: "C13", Gen: genC13, Run: runC13})
+	runSpec(t, Spec[C13Case]{ID: "C13", Gen: genC13, Run: runC13, Pre: preHighC13})
 }
